@@ -34,6 +34,8 @@ func init() {
 	ruleText["R01.15"] = "in the generator of calls, every vararg.Set(v) storing a whole operand (v not built by reflect.Append) into the variadic vector of the callee's frame lies under a condition on the ellipsis flag (n.action == aCallSlice)"
 	ruleText["R01.16"] = "in cfg no parallel assignment exchanges two elements of a []*node (the default clause is moved last without displacing another clause), and no assignment of a successor under a test of fallthroughtStmt takes its target by position (X[i+1]) in the clause list"
 	ruleText["R01.17"] = "in the post-order case of every for kind with an init clause (kinds read from the AST builder), no assignment other than n.start = init.start has n.start or init.start as its value: no successor edge leads back to the init clause"
+	ruleText["R01.19"] = "in every generator whose non-branching closures all store into the node's own frame slot, each closure returning both successors (installed when the value is a branch condition) stores into that slot too"
+	ruleText["R01.20"] = "no run-time closure stores (X.Set(v), data[i] = v) a reflect.Value that its generator built once outside the closure with reflect.MakeSlice/MakeMap/MakeChan, directly or through a local function literal called at generation time"
 	ruleText["R01.14"] = "in the assignment case of cfg, every statement n.gen = nop (the loop-variable idiom excepted) lies under a condition that is false for n.nleft > 1 / len(n.child) >= 4: the assign operation is skipped for single assignments only"
 	ruleText["R01.6"] = "in the multiple-assignment closures of the assignment generator, no loop both evaluates a source generator and writes a destination, and the temporaries receive fresh copies (reflect.New(T).Elem() + Set), never the aliasing result of a source generator"
 }
@@ -74,6 +76,9 @@ func runC01(c *Config, r *Report) {
 	c07R14(ic, r, "R01.15")
 	c01R16(ic, r)
 	c01R17(ic, r)
+	c01R19(ic, r)
+	c01R20(ic, r)
+	c01R2decl(ic, r)
 	// R01.13: run-time closures keep no mutable per-statement state (same analysis as
 	// C08/R08.1): a statement executed recursively or re-entered through a callback shares
 	// whatever its closure wrote into a captured generator variable.
